@@ -42,7 +42,7 @@ ASSUMPTIONS = [
 STUBS = ["recording target object (captures the index passed to __setitem__)", "functools.lru_cache of dask.utils._cumsum cleared per path"]
 ENUM = ["number of chunks per axis, ndim, region step, None-ness of region start/stop"]
 OUTSIDE = ["to_npy_stack / from_npy_stack beyond the e2e witnesses (file I/O: round trip along every axis on each witness, no solver claim)", "lock contention between real threads", "targets that are Delayed objects",
-           "regions containing integers or negative bounds (fuse_slice raises NotImplementedError: documented limitation)"]
+           "regions with negative slice bounds (fuse_slice raises NotImplementedError: documented limitation); regions with more than one integer"]
 BOUNDS = {
     "quick": dict(tiling="ndim<=2, <=3 chunks per axis, chunk sizes >= 0 unbounded", region="1-d and 2-d, step in {None,1,2,3}, start/stop symbolic >= 0 or None, "
                   "target length symbolic in [0, 40], block offset/length symbolic"),
@@ -211,6 +211,109 @@ def mk_region(nd, step_opts, Tmax):
     return Obligation(f"region[nd={nd},steps={list(step_opts)},T<={Tmax}]", setup, run, e2e=e2e, e2e_every=11)
 
 
+def mk_region_int(Tmax):
+    """a region that also selects ONE plane of a target with an extra leading or trailing axis by an integer (Python int symbolic; the
+    NumPy-integer spelling np.int64(k) in the e2e witness): region (k, slice) / (slice, k) composed with the 1-d block slice"""
+
+    def setup(e):
+        T = e.int("T", 1, Tmax)
+        P = e.int("P", 1, 3)                   # length of the axis indexed by the integer
+        k = e.int("k")
+        e.assume(lambda: (k >= -P) & (k < P))
+        first = e.flag("int_first")
+        rs = e.int("rs", 0)
+        re = e.int("re", 0)
+        a0, b0, c0 = py_indices(slice(rs, re, None), T)
+        ext = slice_len(a0, b0, c0)
+        s = e.int("s", 0)
+        d = e.int("d", 1)
+        e.assume(lambda: s + d <= ext)
+        return T, P, k, first, rs, re, s, d
+
+    def run(e, T, P, k, first, rs, re, s, d):
+        import operator
+        k = operator.index(k)       # a plain int in both modes (enumerated): code that tests isinstance(k, int) must see the same thing as a user's int
+        reg = slice(rs, re, None)
+        region = (k, reg) if first else (reg, k)
+        index = (slice(s, s + d, None),)
+        rec = Recorder()
+        AC.load_store_chunk(FakeBlock(), rec, index, region, False, False, False)
+        fused = rec.index
+        e.check(isinstance(fused, tuple) and len(fused) == 2, f"index written is {fused!r}")
+        fi, fs = (fused[0], fused[1]) if first else (fused[1], fused[0])
+        e.check(not isinstance(fi, slice), "the integer of the region became a slice")
+        e.check(lambda: fi == k, "the plane selected by the region's integer changed")
+        e.check(isinstance(fs, slice), "fused index is not a slice")
+        fa, fb, fc = py_indices(fs, T)
+        e.check(lambda: slice_len(fa, fb, fc) == d, "the fused index selects a different number of elements than the block has")
+        ra, rb, rc = py_indices(reg, T)
+        e.check(lambda: (fa == ra + s) & (fc == 1), "block written to the wrong target position")
+        return (fa, fc)
+
+    def e2e(model):
+        T, P, k = model["T"], min(model["P"], 4), model["k"]
+        k = max(-P, min(P - 1, k))
+        first = bool(model.get("int_first"))
+        reg = slice(model["rs"], model["re"], None)
+        shape = (P, T) if first else (T, P)
+        probe = np.zeros(shape)
+        for kk in (k, np.int64(k), np.intp(k)):
+            region = (kk, reg) if first else (reg, kk)
+            n = probe[region].shape[0]
+            if n == 0:
+                continue
+            x = np.arange(n) + 5
+            src = da.from_array(x, chunks=_split(n, model["s"] + 1))
+            ref = np.full(shape, -1)
+            ref[region] = x
+            for variant in range(3):
+                tgt = np.full(shape, -1)
+                if variant == 0:
+                    da.store(src, tgt, regions=region, lock=False, scheduler="sync")
+                elif variant == 1:
+                    r = da.store(src, tgt, regions=region, lock=True, compute=False)
+                    dask.compute(r, scheduler="sync")
+                else:
+                    r = da.store(src, tgt, regions=region, lock=False, return_stored=True, scheduler="sync")
+                    if not np.array_equal(r.compute(scheduler="sync"), x):
+                        raise Violation(f"return_stored array differs from the source for region {region!r}")
+                if not np.array_equal(tgt, ref):
+                    raise Violation(f"store with region {region!r} ({type(kk).__name__} plane index) variant {variant} wrote a different array")
+
+    return Obligation(f"region_int[T<={Tmax},plane axis<=3]", setup, run, e2e=e2e, e2e_every=3)
+
+
+def mk_big_targets():
+    """distinct targets larger than 1 MB that hold identical data beforehand (graph construction wraps large arguments differently from small ones):
+    every target must receive exactly its own source. No arithmetic: the mode is solver-enumerated."""
+
+    def setup(e):
+        return (e.pick("mode", ("one_call", "computed_together", "return_stored")), e.pick("fill", ("zeros", "empty_like_equal")))
+
+    def run(e, mode, fill):
+        n = 140_000                                            # 1.12 MB of float64
+        x1 = np.arange(n, dtype=float)
+        x2 = x1 + 0.5
+        s1, s2 = da.from_array(x1, chunks=n // 2), da.from_array(x2, chunks=n // 2)
+        t1 = np.zeros(n) if fill == "zeros" else np.full(n, 7.0)
+        t2 = t1.copy()
+        if mode == "one_call":
+            da.store([s1, s2], [t1, t2], lock=False, scheduler="sync")
+        elif mode == "computed_together":
+            r1 = da.store(s1, t1, lock=False, compute=False)
+            r2 = da.store(s2, t2, lock=False, compute=False)
+            dask.compute(r1, r2, scheduler="sync")
+        else:
+            r1, r2 = da.store([s1, s2], [t1, t2], lock=False, return_stored=True, compute=False)
+            g1, g2 = dask.compute(r1, r2, scheduler="sync")
+            e.check(np.array_equal(g1, x1) and np.array_equal(g2, x2), "return_stored arrays differ from their sources (large targets)")
+        e.check(np.array_equal(t1, x1), "first large target does not hold the first source")
+        e.check(np.array_equal(t2, x2), "second large target does not hold the second source")
+        return mode
+
+    return Obligation("big_equal_targets[2 x 1.1 MB]", setup, run)
+
+
 def _split(n, k):
     k = max(1, min(k, n))
     base, extra = divmod(n, k)
@@ -287,9 +390,13 @@ def obligations(tier):
             obs.append(mk_tiling(nc))
         obs.append(mk_region(1, (None, 1, 2, 3), 40))
         obs.append(mk_region(2, (None, 2), 12))
+        obs.append(mk_region_int(20))
+        obs.append(mk_big_targets())
     else:
         for nc in [(1,), (2,), (3,), (4,), (1, 2), (2, 2), (3, 2), (3, 3), (4, 2), (2, 2, 2)]:
             obs.append(mk_tiling(nc))
         obs.append(mk_region(1, (None, 1, 2, 3, 4, 5), 200))
         obs.append(mk_region(2, (None, 1, 2, 3), 30))
+        obs.append(mk_region_int(200))
+        obs.append(mk_big_targets())
     return obs
